@@ -37,6 +37,10 @@ def task_shim(spec, func, args, kwds):
         if spec.get("delay"):
             time.sleep(spec["delay"])
         if spec.get("die"):
+            if spec.get("die_file"):
+                fd = os.open(spec["die_file"], os.O_WRONLY | os.O_CREAT | os.O_APPEND)
+                os.write(fd, ("%d\n" % os.getpid()).encode())
+                os.close(fd)
             os._exit(17)
         if spec.get("raise_"):
             raise make_exc(*spec["raise_"])
